@@ -170,7 +170,7 @@ def run_crc(case):
             _check_crc(b, viol)
             _check_validate(b, viol)
             n += 1
-    return {"violations": viol[:5], "evals": n, "decided": n, "distinct": n,
+    return {"violations": H.cap(viol), "evals": n, "decided": n, "distinct": n,
             "obs": {"crc_strings": n}, "sample": {"case": case, "strings": n}}
 
 
@@ -304,7 +304,7 @@ def run_case(case):
         if vv:
             break
     obs["corrupt_cases"] = len(case["patterns"])
-    return {"violations": viol[:4], "evals": len(case["patterns"]), "decided": decided,
+    return {"violations": H.cap(viol), "evals": len(case["patterns"]), "decided": decided,
             "distinct": decided, "obs": obs,
             "sample": {"gen": gen, "kind": kind, "frame": raw_b,
                        "first_pattern_bits": case["patterns"][0]}}
